@@ -9,6 +9,7 @@ import (
 	"os/exec"
 	"path/filepath"
 	"strings"
+	"sync"
 	"syscall"
 	"time"
 
@@ -352,6 +353,18 @@ func c14KillChild() int {
 	if err != nil {
 		return 3
 	}
+	if wf := os.Getenv("VERIF_C14_WAITFILE"); wf != "" {
+		// syscall mode: the store is open; the parent attaches strace (which kills this process at the N-th
+		// write system call of a thread from now on) and then creates the file we wait for
+		fmt.Fprintf(jf, "READY\n")
+		jf.Sync()
+		for k := 0; k < 20000; k++ {
+			if _, err := os.Stat(wf); err == nil {
+				break
+			}
+			time.Sleep(time.Millisecond)
+		}
+	}
 	o := store.GenOpts{MaxBlocks: 2, MaxSeqs: 2, MaxActions: 2}
 	for i := 0; i < n; i++ {
 		o.Executed = r.Intn(2) == 0
@@ -381,6 +394,21 @@ func c14KillChild() int {
 	return 0
 }
 
+var (
+	c14StraceOnce sync.Once
+	c14StraceHave bool
+)
+
+// c14StraceOK: strace present (the syscall-level kill injector is optional: without it these cases fall back to
+// the die-inside-MarshalJSON mode, and the evidence says so).
+func c14StraceOK() bool {
+	c14StraceOnce.Do(func() {
+		_, err := exec.LookPath("strace")
+		c14StraceHave = err == nil
+	})
+	return c14StraceHave
+}
+
 func c14Kill(c *Ctx, idx int) CaseResult {
 	ctx := context.Background()
 	r := gen.Rand(c.Seed, "C14", idx)
@@ -391,6 +419,7 @@ func c14Kill(c *Ctx, idx int) CaseResult {
 	dir := filepath.Join(c.Scratch, fmt.Sprintf("kill-%d", idx))
 	os.MkdirAll(dir, 0o755)
 	storm := (idx/4)%3 == 2
+	sysmode := (idx/4)%3 == 1 && c14StraceOK()
 	n := 3 + r.Intn(3)
 	dieAt := r.Intn(n)
 	diePos := r.Intn(12)
@@ -398,11 +427,24 @@ func c14Kill(c *Ctx, idx int) CaseResult {
 		n = 40
 		dieAt = -1
 	}
+	// syscall mode: strace is attached once the store is open and delivers SIGKILL when a thread enters its N-th
+	// pwrite64 (a WAL frame or the commit record of a Create: about 40 per plan) or its N-th fsync from then on
+	sysCall, sysN := "pwrite64", 1+r.Intn(45*n)
+	if sysmode {
+		dieAt = -1
+		if r.Intn(4) == 0 {
+			sysCall, sysN = "fsync", 1+r.Intn(3*n)
+		}
+	}
 	self, _ := os.Executable()
 	cmd := exec.Command(self, "-test.run", "^$")
 	cmd.Env = append(os.Environ(), "VERIF_CHILD=c14kill", "VERIF_C14_DIR="+dir, fmt.Sprintf("VERIF_C14_SEED=%d", r.Int63()),
 		fmt.Sprintf("VERIF_C14_DIEPLAN=%d", dieAt), fmt.Sprintf("VERIF_C14_DIEPOS=%d", diePos), fmt.Sprintf("VERIF_C14_N=%d", n),
 		"GORACE=halt_on_error=0 exitcode=0 log_path="+filepath.Join(dir, "race"))
+	goFile := filepath.Join(dir, "go")
+	if sysmode {
+		cmd.Env = append(cmd.Env, "VERIF_C14_WAITFILE="+goFile)
+	}
 	errf, _ := os.Create(filepath.Join(dir, "child.err"))
 	cmd.Stdout, cmd.Stderr = errf, errf
 	if err := cmd.Start(); err != nil {
@@ -413,6 +455,37 @@ func c14Kill(c *Ctx, idx int) CaseResult {
 	done := make(chan error, 1)
 	go func() { done <- cmd.Wait() }()
 	killedByUs := false
+	var strace *exec.Cmd
+	if sysmode {
+		waitFor := func(file, what string, d time.Duration) bool {
+			deadline := time.Now().Add(d)
+			for time.Now().Before(deadline) {
+				b, _ := os.ReadFile(file)
+				if strings.Contains(string(b), what) {
+					return true
+				}
+				time.Sleep(2 * time.Millisecond)
+			}
+			return false
+		}
+		attached := false
+		if waitFor(filepath.Join(dir, "acks.journal"), "READY", 30*time.Second) {
+			strace = exec.Command("strace", "-f", "-p", fmt.Sprint(cmd.Process.Pid), "-o", filepath.Join(dir, "strace.out"),
+				"-e", "trace="+sysCall, "-e", fmt.Sprintf("inject=%s:signal=SIGKILL:when=%d", sysCall, sysN))
+			sf, _ := os.Create(filepath.Join(dir, "strace.err"))
+			strace.Stdout, strace.Stderr = sf, sf
+			if strace.Start() == nil {
+				attached = waitFor(filepath.Join(dir, "strace.err"), fmt.Sprintf("Process %d attached", cmd.Process.Pid), 10*time.Second)
+				go func() { strace.Wait(); sf.Close() }()
+			}
+		}
+		if attached {
+			res.Counters["syscall_kill_cases"]++
+		} else {
+			res.Counters["strace_attach_failed"]++
+		}
+		os.WriteFile(goFile, []byte("go"), 0o644)
+	}
 	if storm {
 		// wait for the first ACK, then kill after a PRNG-chosen delay
 		deadline := time.Now().Add(30 * time.Second)
@@ -467,8 +540,23 @@ func c14Kill(c *Ctx, idx int) CaseResult {
 		}
 		f.Close()
 	}
-	if ended && !storm {
+	if strace != nil && strace.Process != nil {
+		syscall.Kill(strace.Process.Pid, syscall.SIGTERM) // no-op when the tracee died and strace has gone with it
+	}
+	if ended && !storm && !sysmode {
 		res.Counters["kill_child_survived"]++
+	}
+	if sysmode {
+		if ended {
+			res.Counters["syscall_kill_after_last_create"]++
+		} else {
+			res.Counters["syscall_kill_landed_inside_run"]++
+		}
+	}
+	if len(tried) == 0 && sysmode {
+		res.Counters["syscall_kill_before_first_create"]++
+		os.RemoveAll(dir)
+		return res
 	}
 	if len(tried) == 0 {
 		res.Verdict = "inconclusive"
@@ -529,11 +617,14 @@ func c14Kill(c *Ctx, idx int) CaseResult {
 	if n, err := h.Orphans(ctx); err == nil && n != 0 {
 		add("partial-create", "orphans", "%d raw child rows belong to no plan after the crash", n)
 	}
-	res.Nontriv = hashStr(fmt.Sprint("kill", storm, dieAt, diePos, len(acks), len(tried)))
+	res.Nontriv = hashStr(fmt.Sprint("kill", storm, sysmode, sysCall, sysN, dieAt, diePos, len(acks), len(tried)))
+	if sysmode && !ended && len(tried) > len(acks) {
+		res.Counters["syscall_kill_inside_a_create"]++
+	}
 	res.ISig = res.Nontriv
 	res.Events = len(tried)
 	if idx < 24 {
-		res.Sample = map[string]any{"mode": map[bool]string{true: "kill-at-random-time-during-create-storm", false: "die-inside-create-at-action-position"}[storm], "plans_tried": len(tried), "acked": len(acks), "die_plan": dieAt, "die_pos": diePos}
+		res.Sample = map[string]any{"mode": map[bool]string{true: "kill-at-random-time-during-create-storm", false: map[bool]string{true: fmt.Sprintf("strace-SIGKILL-at-%s-number-%d-of-a-thread", sysCall, sysN), false: "die-inside-create-at-action-position"}[sysmode]}[storm], "plans_tried": len(tried), "acked": len(acks), "die_plan": dieAt, "die_pos": diePos}
 	}
 	if len(res.Viols) > 0 {
 		res.Witness = map[string]any{"dir": dir, "tried": len(tried), "acked": len(acks)}
@@ -545,7 +636,7 @@ func c14Kill(c *Ctx, idx int) CaseResult {
 func init() {
 	register(&Prop{
 		ID: "C14", Level: "fault_enumeration", Batch: 24, PerCaseTimeout: 90 * time.Second,
-		Rule:  "case i by i mod 4: (0) a request that cannot be encoded planted at EVERY action position of a PRNG plan (check and sequence actions; vault.Create, a third through Submit), (1) duplicate Create with a different second version, (2) PRNG create/delete history, (3) process death inside Create on a file-backed store: a request whose MarshalJSON SIGKILLs the process at a PRNG action position of a PRNG plan, or (every third) SIGKILL at a PRNG time during a 40-plan create storm, checked by a second process; oracle: no trace (Read/Exists/raw rows) or complete and equal; other plans and their raw row counts unchanged; distinct by (vault, mode, trace)",
+		Rule:  "case i by i mod 4: (0) a request that cannot be encoded planted at EVERY action position of a PRNG plan (check and sequence actions; vault.Create, a third through Submit), (1) duplicate Create with a different second version, (2) PRNG create/delete history, (3) process death inside Create on a file-backed store: a request whose MarshalJSON SIGKILLs the process at a PRNG action position of a PRNG plan, or (every third) SIGKILL at a PRNG time during a 40-plan create storm, or (every third) strace attached to the open store delivering SIGKILL when a thread enters its N-th pwrite64 (WAL frame / commit record) or N-th fsync, checked by a second process; oracle: no trace (Read/Exists/raw rows) or complete and equal; other plans and their raw row counts unchanged; distinct by (vault, mode, trace)",
 		Cases: nCases(160, 2400),
 		Run:   c14Run,
 		RaceAttr: func(rb ev.RaceBlock) bool {
@@ -555,6 +646,9 @@ func init() {
 		Finish: func(tier string, counters map[string]int, cov map[string]any) string {
 			if counters["kill_cases"] == 0 {
 				return "no process-death case completed"
+			}
+			if counters["syscall_kill_cases"] > 4 && counters["syscall_kill_inside_a_create"] == 0 {
+				return "no strace-injected kill landed inside a Create"
 			}
 			if counters["kill_child_survived"] > counters["kill_cases"]/2 {
 				return fmt.Sprintf("%d of %d die-inside-create children survived", counters["kill_child_survived"], counters["kill_cases"])
